@@ -14,8 +14,12 @@
 //!
 //! Lifecycle: `on_command(v)` logs `cmd:v`; if `v % 7 == 5` it commands its own lane with `v + 1`; then it supplies
 //! `v % 4` items `10v+1 …` (logging `sup:x` before each); then it sends `(v / 4) % 5` ad hoc commands (60 when
-//! `v % 11 == 0`) with `SendCommand::new`: the i-th goes to node `/t<(v+i)%3>` lane `in`, value `100v+i`,
-//! `overwrite_permitted = (v+i) % 2 == 0`.
+//! `v % 11 == 0`) with `SendCommand::new`: the i-th goes to node `/t<(v+i)%3>` lane `in`, value `1000v+i`,
+//! `overwrite_permitted = (v+i) % 2 == 0`; then it sends `(v / 3) % 4` commands (40 when `v % 13 == 0`) through
+//! `Commander`s: the i-th goes to `/t<(v+2i)%4>` lane `in`, value `1000v+500+i`, `send` (overwritable) when
+//! `(v+i) % 3 == 0` else `send_queued`. The lifecycle keeps one commander per target, created with
+//! `HandlerContext::create_commander` on first use — and created AGAIN when the value is a multiple of 5.
+//! `readcmd` records: `<t>:<v>:<ow>` (Addressed) | `R<t>=<id>` (Register) | `#<id>:<v>:<ow>` (Registered).
 use std::collections::HashMap;
 use std::num::NonZeroUsize;
 use std::sync::{Arc, Mutex};
@@ -26,16 +30,9 @@ use futures::future::{ready, BoxFuture};
 use futures::{FutureExt, SinkExt, StreamExt};
 use svh::{parse_args, Mode, Rng, Trace};
 use swimos::agent::agent_model::AgentModel;
-use swimos::agent::{
-    agent_lifecycle::HandlerContext,
-    event_handler::{EventHandler, HandlerActionExt, SendCommand, Sequentially},
-    lanes::{CommandLane, SupplyLane},
-    lifecycle, projections, AgentLaneModel,
-};
 use swimos_agent_protocol::encoding::command::CommandMessageDecoder;
 use swimos_agent_protocol::encoding::lane::{RawValueLaneRequestEncoder, RawValueLaneResponseDecoder};
 use swimos_agent_protocol::{CommandMessage, LaneRequest, LaneResponse};
-use swimos_api::address::Address;
 use swimos_api::agent::{
     Agent, AgentConfig, AgentContext, DownlinkKind, HttpLaneRequestChannel, LaneConfig, StoreKind, WarpLaneKind,
 };
@@ -44,50 +41,9 @@ use swimos_utilities::byte_channel::{byte_channel, ByteReader, ByteWriter};
 use tokio_util::codec::{FramedRead, FramedWrite};
 use uuid::Uuid;
 
-#[projections]
-#[derive(AgentLaneModel)]
-pub struct TestAgent {
-    cmd: CommandLane<i32>,
-    sup: SupplyLane<i32>,
-}
-
-type Log = Arc<Mutex<Vec<String>>>;
-
-#[derive(Clone)]
-pub struct TestLifecycle {
-    log: Log,
-}
-
-#[lifecycle(TestAgent)]
-impl TestLifecycle {
-    #[on_command(cmd)]
-    pub fn on_command(&self, context: HandlerContext<TestAgent>, value: &i32) -> impl EventHandler<TestAgent> {
-        let log = self.log.clone();
-        let n = *value;
-        let note = context.effect(move || log.lock().unwrap().push(format!("cmd:{}", n)));
-        let nested = if n.rem_euclid(7) == 5 {
-            Some(context.command(TestAgent::CMD, n + 1))
-        } else {
-            None
-        };
-        let log2 = self.log.clone();
-        let pushes = (0..n.rem_euclid(4)).map(move |i| {
-            let x = n * 10 + i + 1;
-            let log3 = log2.clone();
-            context
-                .effect(move || log3.lock().unwrap().push(format!("sup:{}", x)))
-                .followed_by(context.supply(TestAgent::SUP, x))
-        });
-        let count = if n.rem_euclid(11) == 0 { 60 } else { (n / 4).rem_euclid(5) };
-        let sends = (0..count).map(move |i| {
-            let node = format!("/t{}", (n + i).rem_euclid(3));
-            SendCommand::new(Address::text(None, node.as_str(), "in"), n * 100 + i, (n + i).rem_euclid(2) == 0)
-        });
-        note.followed_by(nested.discard())
-            .followed_by(Sequentially::new(pushes))
-            .followed_by(Sequentially::new(sends))
-    }
-}
+#[path = "../c14_agent.rs"]
+mod c14_agent;
+use c14_agent::{Log, TestAgent, TestLifecycle};
 
 type Io = (ByteWriter, ByteReader);
 
@@ -223,7 +179,14 @@ impl Rig {
                                 overwrite_permitted as u8
                             ));
                         }
-                        Ok(Some(Ok(_))) => got.push("other-message".into()),
+                        Ok(Some(Ok(CommandMessage::Register { address, id }))) => {
+                            let t = address.node.trim_start_matches("/t").to_string();
+                            let ok = address.host.is_none() && address.lane == "in";
+                            got.push(format!("R{}{}={}", if ok { "" } else { "?" }, t, id));
+                        }
+                        Ok(Some(Ok(CommandMessage::Registered { target, command, overwrite_permitted }))) => {
+                            got.push(format!("#{}:{}:{}", target, command, overwrite_permitted as u8));
+                        }
                         Ok(Some(Err(_))) => {
                             got.push("decode-error".into());
                             break;
@@ -260,7 +223,7 @@ async fn run_case_async(ops: Vec<String>) -> Vec<(String, String)> {
     };
     results.push((ops[0].clone(), "ok".to_string()));
     let log: Log = Arc::new(Mutex::new(vec![]));
-    let lc = TestLifecycle { log: log.clone() };
+    let lc = TestLifecycle { log: log.clone(), commanders: Default::default() };
     let agent = AgentModel::new(TestAgent::default, lc.into_lifecycle());
     let lanes = Arc::new(Mutex::new(HashMap::new()));
     let cmd_rx = Arc::new(Mutex::new(vec![]));
